@@ -612,6 +612,41 @@ func c09c(c *Ctx, r *Report) {
 			}
 			iv := identObj(ginfo, be.X)
 			inc, visit := 0, false
+			// the step: `i++` at the end of the body (while form) or as the post statement (three-clause form)
+			if id, isI := fs.Post.(*ast.IncDecStmt); isI && id.Tok == token.INC && identObj(ginfo, id.X) == iv {
+				inc++
+			}
+			// start at 0
+			startOK := false
+			if init, isA := fs.Init.(*ast.AssignStmt); isA && len(init.Lhs) == 1 && identObj(ginfo, init.Lhs[0]) == iv {
+				if v, isC := constInt(ginfo, init.Rhs[0]); isC && v == 0 {
+					startOK = true
+				}
+			} else if fs.Init == nil {
+				ast.Inspect(g.Decl.Body, func(m ast.Node) bool {
+					switch x := m.(type) {
+					case *ast.ValueSpec:
+						for i, nm := range x.Names {
+							if ginfo.Defs[nm] == iv && (i >= len(x.Values) || func() bool { v, isC := constInt(ginfo, x.Values[i]); return isC && v == 0 }()) {
+								startOK = true
+							}
+						}
+					case *ast.AssignStmt:
+						if x.Tok == token.DEFINE && len(x.Lhs) == 1 && identObj(ginfo, x.Lhs[0]) == iv && x.Pos() < fs.Pos() {
+							if v, isC := constInt(ginfo, x.Rhs[0]); isC && v == 0 {
+								startOK = true
+							}
+						}
+					}
+					return true
+				})
+			}
+			if !startOK {
+				return true
+			}
+			if !noSkips(fs.Body) {
+				return true
+			}
 			for _, s := range fs.Body.List {
 				if id, isI := s.(*ast.IncDecStmt); isI && id.Tok == token.INC && identObj(ginfo, id.X) == iv {
 					inc++
